@@ -6,7 +6,7 @@ from symx.engine import smax, smin
 ID = "C13"
 MODULES = ["hta.trace_analysis", "hta.common.trace_call_graph"]
 MUST_NOT_RAISE = True
-BUDGET_S = {"quick": 480, "thorough": 3300}
+BUDGET_S = {"quick": 480, "thorough": 1200}
 TIE_MODE = "stable"
 MAIN_TID, BWD_TID = 100, 200
 BOUNDS = {
